@@ -2,6 +2,8 @@ package main
 
 import (
 	"fmt"
+	"reflect"
+	"strconv"
 	"sort"
 	"strings"
 
@@ -180,6 +182,16 @@ func CompareSuccess(sc *Scenario, o *ParseObs, checkRest bool) (string, string) 
 }
 
 func expectedPos(a *PosArg, toks []string) (string, bool) {
+	if a.PtrSlice {
+		if len(toks) == 0 {
+			return "nil", true
+		}
+		var q []string
+		for _, t := range toks {
+			q = append(q, strconv.Quote(t))
+		}
+		return "&[" + strings.Join(q, " ") + "]", true
+	}
 	v := newZero(a.T)
 	for _, t := range toks {
 		if !applyRef(v, a.T, a.Base, t) {
@@ -229,3 +241,26 @@ func caseOf(sc *Scenario, args []string, extra map[string]interface{}) func() in
 }
 
 func sortStrings(s []string) { sort.Strings(s) }
+
+// posStrings lists the string values a string-kinded positional holds (scalar, list or pointer-to-list).
+func posStrings(a *PosArg) []string {
+	var vals []string
+	v := a.Val
+	if a.PtrSlice {
+		if v.IsNil() {
+			return nil
+		}
+		v = v.Elem()
+	}
+	switch v.Kind() {
+	case reflect.Slice:
+		for i := 0; i < v.Len(); i++ {
+			vals = append(vals, v.Index(i).String())
+		}
+	case reflect.String:
+		if v.String() != "" {
+			vals = append(vals, v.String())
+		}
+	}
+	return vals
+}
